@@ -202,6 +202,9 @@ func c09Cases(r *ev.Run, rng *rand.Rand, d ntske.Data, tag string) []*c09Case {
 		cases = append(cases, c)
 	}
 	fills := []string{"zero", "random", "copied-valid"}
+	if r.Thorough() { // three more draws of the random remainder
+		fills = append(fills, "random", "random", "random")
+	}
 	for fb := 0; fb < 256; fb++ {
 		for _, l := range lengths {
 			for fi, fill := range fills {
